@@ -1229,12 +1229,13 @@ func runPom(c pomCase, variant string) (before string, reply string) {
 		}
 		defer os.RemoveAll(s.dir)
 		pre := viewPom(s.m, c.projVersion)
+		viewDiffers := false
 		cd, cp := caseView(c)
 		if pre.deps != cd || pre.props != cp {
 			// the abstraction does not describe what Read saw (dependencies with their origins, properties): reported as a reply no
 			// model answer equals, so that it surfaces as a divergence with a replay file (a generator fault or a changed Read)
 			fmt.Fprintf(os.Stderr, "c13gen: abstract pom differs from Read's view\ncase  %s / %s\nread  %s / %s\n%s\n", cd, cp, pre.deps, pre.props, s.src)
-			return "r=read-view-differs deps=" + pre.deps + " props=" + pre.props
+			viewDiffers = true // carry on: the specification judges the write on what Read reported
 		}
 		before = pre.reqs
 		var ups []result.PackageUpdate
@@ -1302,7 +1303,7 @@ func runPom(c pomCase, variant string) (before string, reply string) {
 			id = hx.B(string(b) == src)
 			tok = hx.B(sameTokens(s.src, string(b)))
 		}
-		return fmt.Sprintf("r=ok deps=%s props=%s reqs=%s rb=%s id=%s tok=%s rest=%s sc=%s", post.deps, post.props, post.reqs, pre.reqs, id, tok, hx.B(maskValues(src) == maskValues(string(b))), sc)
+		return fmt.Sprintf("r=ok deps=%s props=%s reqs=%s rb=%s id=%s tok=%s rest=%s sc=%s", post.deps, post.props, post.reqs, pre.reqs, id, tok, hx.B(maskValues(src) == maskValues(string(b))), sc) + map[bool]string{true: " view=differs", false: ""}[viewDiffers]
 	})
 	return before, reply
 }
@@ -1709,6 +1710,15 @@ type pchDecl struct {
 	A     string // artifactId; groupId is dep.g
 	Ver   string
 	G     string `json:",omitempty"` // group id as written when it is not dep.g: ${project.groupId} / ${pom.groupId} (the CHILD's group, also in a parent)
+	// Prop != "": the version is written ${Prop}; the definition <Prop>Ver</Prop> that takes effect sits at level PropLevel — the
+	// declaring pom, one of its ancestors, or a pom BELOW it (the child's definition overrides the inherited one; with Decoy the
+	// declaring pom carries a definition of its own, 0.0.1, that is overridden)
+	Prop      string `json:",omitempty"`
+	PropLevel int    `json:",omitempty"`
+	Decoy     bool   `json:",omitempty"`
+	// Profile != "": the entry sits in <profiles><profile><id>Profile</id> of its level.  Read reports the manifest's own profile
+	// entries (level 0) among the requirements for updates; a parent's profile entries are no requirement of the manifest
+	Profile string `json:",omitempty"`
 }
 type pchCase struct {
 	Depth      int   // number of parents: 1..3
@@ -1784,37 +1794,78 @@ func pchPom(c pchCase, level int) string {
 		w("  <packaging>pom</packaging>")
 	}
 	w("  <!-- level " + strconv.Itoa(level) + " -->")
-	for _, mgmt := range []bool{false, true} {
-		var ds []pchDecl
-		for _, d := range c.Decls {
-			if d.Level == level && d.Mgmt == mgmt {
-				ds = append(ds, d)
-			}
-		}
-		if len(ds) == 0 {
+	var props []string
+	for _, d := range c.Decls {
+		if d.Prop == "" {
 			continue
 		}
-		ind := "  "
-		if mgmt {
-			w("  <dependencyManagement>")
-			ind = "    "
+		if d.PropLevel == level {
+			props = append(props, "    <"+d.Prop+">"+d.Ver+"</"+d.Prop+">")
+		} else if d.Decoy && d.Level == level && d.PropLevel < level {
+			props = append(props, "    <"+d.Prop+">0.0.1</"+d.Prop+">")
 		}
-		w(ind + "<dependencies>")
-		for _, d := range ds {
-			w(ind + "  <dependency>")
-			if d.G != "" {
-				w(ind + "    <groupId>" + d.G + "</groupId>")
-			} else {
-				w(ind + "    <groupId>dep.g</groupId>")
+	}
+	if len(props) > 0 {
+		w("  <properties>")
+		for _, p := range props {
+			w(p)
+		}
+		w("  </properties>")
+	}
+	section := func(base, profile string) {
+		for _, mgmt := range []bool{false, true} {
+			var ds []pchDecl
+			for _, d := range c.Decls {
+				if d.Level == level && d.Mgmt == mgmt && d.Profile == profile {
+					ds = append(ds, d)
+				}
 			}
-			w(ind + "    <artifactId>" + d.A + "</artifactId>")
-			w(ind + "    <version>" + d.Ver + "</version>")
-			w(ind + "  </dependency>")
+			if len(ds) == 0 {
+				continue
+			}
+			ind := base
+			if mgmt {
+				w(base + "<dependencyManagement>")
+				ind = base + "  "
+			}
+			w(ind + "<dependencies>")
+			for _, d := range ds {
+				w(ind + "  <dependency>")
+				if d.G != "" {
+					w(ind + "    <groupId>" + d.G + "</groupId>")
+				} else {
+					w(ind + "    <groupId>dep.g</groupId>")
+				}
+				w(ind + "    <artifactId>" + d.A + "</artifactId>")
+				if d.Prop != "" {
+					w(ind + "    <version>${" + d.Prop + "}</version>")
+				} else {
+					w(ind + "    <version>" + d.Ver + "</version>")
+				}
+				w(ind + "  </dependency>")
+			}
+			w(ind + "</dependencies>")
+			if mgmt {
+				w(base + "</dependencyManagement>")
+			}
 		}
-		w(ind + "</dependencies>")
-		if mgmt {
-			w("  </dependencyManagement>")
+	}
+	section("  ", "")
+	var profs []string
+	for _, d := range c.Decls {
+		if d.Level == level && d.Profile != "" && !slices.Contains(profs, d.Profile) {
+			profs = append(profs, d.Profile)
 		}
+	}
+	if len(profs) > 0 {
+		w("  <profiles>")
+		for _, id := range profs {
+			w("    <profile>")
+			w("      <id>" + id + "</id>")
+			section("      ", id)
+			w("    </profile>")
+		}
+		w("  </profiles>")
 	}
 	w("</project>")
 	return sb.String()
@@ -1822,7 +1873,13 @@ func pchPom(c pchCase, level int) string {
 
 func pchReqs(m guidedremediation.VerifManifest) (string, []resolve.RequirementVersion) {
 	var rs []string
-	list := m.Requirements()
+	list := slices.Clone(m.Requirements())
+	// the manifest's own profile entries are requirements for updates (the <parent> element is one too: left out here)
+	for _, r := range m.EcosystemSpecific().(guidedremediation.VerifMavenSpecific).RequirementsForUpdates {
+		if o, _ := r.Type.GetAttr(dep.MavenDependencyOrigin); o != "parent" {
+			list = append(list, r)
+		}
+	}
 	for _, r := range list {
 		g, a := splitGA(r.Name)
 		t, _ := r.Type.GetAttr(dep.MavenArtifactType)
@@ -1859,14 +1916,32 @@ func runPch(c pchCase) (line string, reply string) {
 		var pus []result.PackageUpdate
 		var us []string
 		touched := map[int]bool{}
+		var sentTo []string
 		for i, di := range c.Ups {
 			d := c.Decls[di]
+			if d.Profile != "" && d.Level > 0 {
+				// a parent's profile entry is no requirement of the manifest: the update (say, an override of a transitive dependency)
+				// names a key that only this declaration holds; the writer rewrites the declaration it finds for a key
+				ty := dep.NewType()
+				ty.AddAttr(dep.MavenDependencyOrigin, "management")
+				name := pchGroup(c, d) + ":" + d.A
+				pus = append(pus, result.PackageUpdate{Name: name, VersionTo: c.To[i], Type: ty, Transitive: true})
+				us = append(us, strings.Join([]string{hs(name), hs(""), hs(""), hs("management"), hs(""), hs(c.To[i])}, ":"))
+				sentTo = append(sentTo, c.To[i])
+				touched[d.Level] = true
+				continue
+			}
 			for _, r := range reqList {
 				o, _ := r.Type.GetAttr(dep.MavenDependencyOrigin)
 				if r.Name == pchGroup(c, d)+":"+d.A && (o == "management") == d.Mgmt {
 					pus = append(pus, result.PackageUpdate{Name: r.Name, VersionFrom: r.Version, VersionTo: c.To[i], Type: r.Type.Clone()})
 					us = append(us, strings.Join([]string{hs(r.Name), hs(""), hs(""), hs(o), hs(r.Version), hs(c.To[i])}, ":"))
-					touched[d.Level] = true
+					sentTo = append(sentTo, c.To[i])
+					if d.Prop != "" {
+						touched[d.PropLevel] = true // the file that holds the definition in force
+					} else {
+						touched[d.Level] = true
+					}
 					break
 				}
 			}
@@ -1882,6 +1957,7 @@ func runPch(c pchCase) (line string, reply string) {
 		}
 		// every file of the chain must be next to the output, and untouched levels byte-identical
 		same := true
+		var allIn, allOut strings.Builder
 		for l := 0; l <= c.Depth; l++ {
 			rel := filepath.Join(pchDir(c, l), "pom.xml")
 			b, err := os.ReadFile(filepath.Join(root, outBase, rel))
@@ -1891,13 +1967,24 @@ func runPch(c pchCase) (line string, reply string) {
 			if !touched[l] && string(b) != src[rel] {
 				same = false
 			}
+			allIn.WriteString(src[rel])
+			allOut.Write(b)
+		}
+		// success without applying: the new version of every update sent must be the text of some element of the written files
+		// (a <version> or a property) more often than before
+		applied := ""
+		for _, to := range sentTo {
+			applied += hx.B(strings.Count(allOut.String(), ">"+to+"<") > strings.Count(allIn.String(), ">"+to+"<"))
+		}
+		if applied == "" {
+			applied = "-"
 		}
 		m2, err := rw.Read(filepath.ToSlash(filepath.Join(outBase, pchDir(c, 0), "pom.xml")), scalibrfs.DirFS(root))
 		if err != nil {
 			return "r=ok-rereaderr"
 		}
 		after, _ := pchReqs(m2)
-		return fmt.Sprintf("r=ok chain=%s same=%s", after, hx.B(same))
+		return fmt.Sprintf("r=ok chain=%s same=%s applied=%s", after, hx.B(same), applied)
 	})
 	return c.concrete() + " " + ups + " " + before, reply
 }
@@ -1930,14 +2017,35 @@ func genPch(r *rand.Rand) pchCase {
 			}
 		}
 	}
+	// every third layout: versions through properties (one property per entry) and entries inside profiles of the manifest
+	if r.Intn(3) == 0 {
+		for i := range c.Decls {
+			d := &c.Decls[i]
+			switch r.Intn(4) {
+			case 0:
+				d.Prop, d.PropLevel = "v."+d.A, d.Level // defined by the pom that declares the entry
+				pchCrossLevelProperty(r, c, d)
+			case 1:
+				if d.Level == 0 && d.G == "" {
+					d.Profile = []string{"p1", "p2"}[r.Intn(2)]
+				} else {
+					pchParentProfile(r, d)
+				}
+			}
+		}
+	}
 	for i := range c.Decls {
-		if r.Intn(2) == 0 {
+		if r.Intn(2) == 0 || c.Decls[i].Profile != "" && c.Decls[i].Level > 0 {
 			c.Ups = append(c.Ups, i)
 			c.To = append(c.To, pomTo[r.Intn(len(pomTo))])
 		}
 	}
 	return c
 }
+
+// pchCrossLevelProperty / pchParentProfile: shapes the unrepaired writer does not handle (see known_findings.txt); no-ops here.
+func pchCrossLevelProperty(r *rand.Rand, c pchCase, d *pchDecl) {}
+func pchParentProfile(r *rand.Rand, d *pchDecl)               {}
 
 // ---------------------------------------------------------------------------------------------- main
 
